@@ -135,7 +135,7 @@ struct Kw {
 };
 struct DeckT { std::vector<Kw> kws; };
 
-static const char* HOSTILE_STRINGS[] = {"'A B'", "'W*'", "'A/B'", "'A--B'", "'x -- y / z'", "'*'", "'P1*'", "'2*X'", "'a b  c'", "'/'", "W*", "OP_1", "'OP-1'", "X", "PROD1", "'G 1'"};
+static const char* HOSTILE_STRINGS[] = {"'TBG-3.5\"'", "'a\"b'", "'\"'", "'A B'", "'W*'", "'A/B'", "'A--B'", "'x -- y / z'", "'*'", "'P1*'", "'2*X'", "'a b  c'", "'/'", "W*", "OP_1", "'OP-1'", "X", "PROD1", "'G 1'"};
 static const char* PLAIN_STRINGS[] = {"S1", "W1", "OP", "'WELL'", "G1", "'FIELD'", "YES", "NO", "OPEN", "'SHUT'", "ORAT", "X"};
 static const char* DOUBLES[] = {"1.5", "2.25e1", "0.5D0", "7", "-3.125", "1.0E-3", "1.5d+2", ".5", "5.", "1E+25", "1.0E-25", "-1.2345678901234567", "0", "0.0", "100", "1e3", "3.0D-2", "+4.5", "123456789.125", "0.1"};
 static const char* UDAS[] = {"10.5", "2", "'WUOPR'", "WUX", "FUVAR", "'GUY1'", "1.0E3", "-4"};
